@@ -184,6 +184,9 @@ def run(rep):
         rep.case("sweep:" + what, key=what, nontrivial=True, outcome=repr(sorted(t["classes"].items())), sample={"sweep": what, "mutants": t["n"]})
     rep.extra["sweeps"] = totals
     rep.extra["artifact_sizes"] = dict(sizes, pack=psize)
+    # completing a thin pack, against Model/ThinPack.v
+    import corr_C04_thin
+    corr_C04_thin.run(rep)
 
 
 def replay(rep, body):
